@@ -11,6 +11,7 @@ import (
 	"vh/gen"
 	"vh/lib"
 	"vh/prng"
+	"vh/rec"
 )
 
 // C13 — sizing and encoding are repeatable and do not disturb the value.
@@ -184,6 +185,9 @@ func c13Eval(c *fw.Ctx, data any) {
 		if bad {
 			return
 		}
+	}
+	if cs.Mode == "ctrl" {
+		c13LateHistories(c, m, kind, hs)
 	}
 	c13HistoryIndependence(c, cs, kind)
 	// a value built and encoded in the previous case is an independent value: everything this case built, encoded and
@@ -421,5 +425,88 @@ func c13HistoryIndependence(c *fw.Ctx, cs *c06Case, kind string) {
 			off++
 		}
 		c.Violation(kind, "repeat", "edited-after-encoding", fmt.Sprintf("%d exported fields were edited; the value that had been encoded before the edit now encodes to %d bytes (Len %d), an equal value edited before its first encoding to %d bytes (Len %d); first difference at offset %d\nencoded before edit: %s\nfresh:               %s", flips, len(a.enc), a.l, len(b.enc), b.l, off, window(a.enc, off), window(b.enc, off)))
+	}
+}
+
+// c13LateHistories: the same size/encode histories on values built top-down (variable-size actions attached empty and
+// grown afterwards, NAT actions two levels down included). Whatever such a value encodes to - inner containers cache
+// lengths at insertion - it must encode to the same thing, and report the same size, every time.
+func c13LateHistories(c *fw.Ctx, m *rec.Rec, kind string, hs [][]int) {
+	switch m.K {
+	case "flow_mod", "group_mod", "packet_out", "bundle_add":
+	default:
+		return
+	}
+	// only values that can be sized and encoded at all are in the property's domain (a conntrack action whose nested
+	// action outgrew the length it cached cannot be encoded by the pinned library)
+	probe, _, _ := fw.Recover(func() {
+		v, late, err := lib.BuildMessageLate(m, true)
+		if err != nil || late == 0 || isNil(v) {
+			panic("skip")
+		}
+		v.Len()
+		v.MarshalBinary()
+	})
+	if probe {
+		return
+	}
+	refLen := -1
+	var refBytes []byte
+	for hi, h := range hs {
+		if hi >= 30 {
+			break
+		}
+		var v util.Message
+		var late int
+		var err error
+		p, _, _ := fw.Recover(func() { v, late, err = lib.BuildMessageLate(m, true) })
+		if p || err != nil || late == 0 || isNil(v) {
+			return
+		}
+		if hi == 0 {
+			c.Count("late_growth_values", 1)
+		}
+		ops := ""
+		bad := false
+		p, pv, st := fw.Recover(func() {
+			for _, op := range h {
+				if op == 0 {
+					ops += "L"
+					l := int(v.Len())
+					if refLen < 0 {
+						refLen = l
+					} else if l != refLen {
+						c.Violation(kind, "repeat", "late-growth:size-changed", fmt.Sprintf("value built top-down, history %s: size query answered %d, an earlier one %d", ops, l, refLen))
+						bad = true
+						return
+					}
+				} else {
+					ops += "E"
+					b, e := v.MarshalBinary()
+					if e != nil {
+						bad = true
+						return
+					}
+					if refBytes == nil {
+						refBytes = append([]byte(nil), b...)
+					} else if !bytes.Equal(b, refBytes) {
+						off := 0
+						for off < len(b) && off < len(refBytes) && b[off] == refBytes[off] {
+							off++
+						}
+						c.Violation(kind, "repeat", "late-growth:bytes-changed", fmt.Sprintf("value built top-down, history %s: encoding (%d bytes) differs from an earlier encoding (%d bytes) at offset %d\nnow:    %s\nbefore: %s", ops, len(b), len(refBytes), off, window(b, off), window(refBytes, off)))
+						bad = true
+						return
+					}
+				}
+			}
+		})
+		if p {
+			c.Violation(kind, "panic", "late-growth:"+fw.LibFrame(st), fmt.Sprintf("history %s panics although the same value could be sized and encoded when probed: %s", ops, pv))
+			return
+		}
+		if bad {
+			return
+		}
 	}
 }
